@@ -482,6 +482,7 @@ type Contract struct {
 	Trusted  bool   // "assume func": contract is assumed, body not verified
 	Requires []Clause
 	Ensures  []Clause
+	Trusts   []Clause // postconditions assumed by callers and NOT checked on the body (per-clause trust)
 	Modifies []Clause // location expressions; Src=="everything" => havoc all
 	ModAll   bool
 	Invs     map[string][]Clause // "loop1" / "iter1" -> invariants
@@ -500,6 +501,9 @@ type Contract struct {
 	AimReq, AimEns, AimClaims []Clause // clauses tagged with the aimcheck property: only used in aim mode
 	AimInvs map[string][]Clause
 	MustCall []Clause // aim mode: functions (name suffixes) that are called on every path that reaches a return
+	TrustFrame bool // `trustframe`: the modifies clause is assumed by callers and not checked on the body
+	LongLived []Clause // root types (pkg.Type) of the long-lived object graph for `maywrite`
+	MayWrite  []Clause // allow-list: the only fields of long-lived struct types the function may write (call graph)
 	NoWrite []Clause // call-graph frame: fields (pkg.Type.field) of objects it did not allocate that the function never writes
 	AimAlso []Clause // other State objects (never touched by CheckTx) that may be used directly
 	AimExempt []string // store types (pkg.Type) whose aim is not the deliver state by design
@@ -624,7 +628,7 @@ func ParseContractFile(path, pkg string) (*ContractFile, error) {
 		body := strings.TrimPrefix(t, "//@")
 		lines = append(lines, ln{body, i + 1})
 	}
-	keywords := []string{"mustcall", "theorem", "opaque-arith", "nowrite", "aimalso", "aimexempt", "aimcheck", "assumes", "exports", "dyncalls", "claims", "grants", "forbids", "footprint", "iterator", "count", "update", "func", "assume", "interface", "method", "requires", "ensures", "modifies", "invariant", "safety", "ghost", "model", "repr", "axiom", "implements", "lemma", "yields", "property", "noinline", "const", "expands", "inline"}
+	keywords := []string{"trustframe", "longlived", "maywrite", "trusts", "mustcall", "theorem", "opaque-arith", "nowrite", "aimalso", "aimexempt", "aimcheck", "assumes", "exports", "dyncalls", "claims", "grants", "forbids", "footprint", "iterator", "count", "update", "func", "assume", "interface", "method", "requires", "ensures", "modifies", "invariant", "safety", "ghost", "model", "repr", "axiom", "implements", "lemma", "yields", "property", "noinline", "const", "expands", "inline"}
 	isKw := func(s string) bool {
 		f := strings.Fields(s)
 		if len(f) == 0 {
@@ -702,7 +706,7 @@ func ParseContractFile(path, pkg string) (*ContractFile, error) {
 			name, _ := splitTag(rest)
 			cur = &Contract{Pkg: pkg, Target: curIface.Name + "." + name, Invs: map[string][]Clause{}, File: path, Line: l.n}
 			curIface.Methods[name] = cur
-		case "requires", "ensures", "lemma", "yields", "claims", "exports", "assumes":
+		case "requires", "ensures", "lemma", "yields", "claims", "exports", "assumes", "trusts":
 			if cur == nil {
 				return nil, fail(l, fmt.Errorf("%s outside func", kw))
 			}
@@ -717,6 +721,8 @@ func ParseContractFile(path, pkg string) (*ContractFile, error) {
 				cur.Requires = append(cur.Requires, c)
 			case "ensures":
 				cur.Ensures = append(cur.Ensures, c)
+			case "trusts":
+				cur.Trusts = append(cur.Trusts, c)
 			case "claims":
 				cur.Claims = append(cur.Claims, c)
 			case "exports":
@@ -797,6 +803,21 @@ func ParseContractFile(path, pkg string) (*ContractFile, error) {
 			}
 			es, tag := splitTag(rest)
 			cur.MustCall = append(cur.MustCall, Clause{Tag: tag, Src: es})
+		case "trustframe":
+			if cur == nil {
+				return nil, fail(l, fmt.Errorf("trustframe outside func"))
+			}
+			cur.TrustFrame = true
+		case "longlived", "maywrite":
+			if cur == nil {
+				return nil, fail(l, fmt.Errorf("%s outside func", kw))
+			}
+			es, tag := splitTag(rest)
+			if kw == "longlived" {
+				cur.LongLived = append(cur.LongLived, Clause{Tag: tag, Src: es})
+			} else {
+				cur.MayWrite = append(cur.MayWrite, Clause{Tag: tag, Src: es})
+			}
 		case "nowrite":
 			if cur == nil {
 				return nil, fail(l, fmt.Errorf("nowrite outside func"))
